@@ -87,6 +87,11 @@ def setup_kernel(case, mode):
     set_mode(mode)
     if shimmed(mode):
         install_np(du, cbgu, el)
+    # a blocking size (any integer literal >= 1000) inside the neighbour
+    # kernels is also run as 1, 2 and 3: with it the four-row batch below
+    # spans several blocks (nothing to do on a tree without such a literal)
+    from harness.common import generalise_large_literals
+    generalise_large_literals(du)
 
 
 def h_per_row(ctx, case):
@@ -108,16 +113,21 @@ def h_per_row(ctx, case):
         i3, v3 = du.correlation_nearest_neighbors(
             baseline_array=R, query_array=arr(ctx, np.vstack([b, a, a])),
             return_correlation=True)
+        i4, v4 = du.correlation_nearest_neighbors(
+            baseline_array=R, query_array=arr(ctx, np.vstack([b, a, b, a])),
+            return_correlation=True)
         c1 = cbgu.convert_to_cpm(arr(ctx, a))
         c2 = cbgu.convert_to_cpm(arr(ctx, np.vstack([b, a])))
     except Exception as e:
         ctx.exception(e)
         return 'EXC ' + type(e).__name__
     ctx.reach('computed')
-    ctx.check(int(i1[0]) == int(i2[0]) == int(i3[1]) == int(i3[2]),
+    ctx.check(int(i1[0]) == int(i2[0]) == int(i3[1]) == int(i3[2])
+              == int(i4[1]) == int(i4[3]),
               'nearest neighbour of a row is independent of the other rows')
     ctx.check(And(same(ctx, v1[0], v2[0]), same(ctx, v1[0], v3[1]),
-                  same(ctx, v1[0], v3[2])),
+                  same(ctx, v1[0], v3[2]), same(ctx, v1[0], v4[1]),
+                  same(ctx, v1[0], v4[3])),
               'winning correlation of a row is independent of the other '
               'rows')
     for j in range(ng):
@@ -234,7 +244,8 @@ HARNESSES = [
                    'correlation_dot', '_subtract_mean_and_normalize_cpu',
                    'cell_by_gene.utils.convert_to_cpm'],
             bounds='2-3 genes, 2-3 reference rows, rows A,B symbolic in '
-                   '[0,8]; batches [A], [A,B], [B,A,A]',
+                   '[0,8]; batches [A], [A,B], [B,A,A], [B,A,B,A]; integer literals >= 1000 '
+                   'in the kernels also run as 1, 2, 3 (blocking sizes)',
             expect_reach=['computed'], selftest=20, query_timeout_ms=60000),
     Harness('factor_one_ignores_generator', h_factor_one,
             setup=C02.setup_tally,
